@@ -424,3 +424,15 @@ def compress_literals(code):
     """A valid (if not small) :c: code area for `code`: header + one literal per byte, no back-references."""
     ops = [('lit', b) if (b != 0 and bytes((b,)) in C_TABLE[1:]) else ('esc', b) for b in code]
     return b':c:\x00' + bytes((len(code) >> 8, len(code) & 255)) + b'\x00\x00' + encode_stream(ops)
+
+
+def read_written(raw, case, what='the cart written by picotool', png=False):
+    """read_p8 / read_p8png for files picotool wrote: a file the format description cannot read is a violation of
+    the check that looks at it, not a harness error."""
+    from vlib.runner import Violation
+    from vlib import refpng
+    try:
+        return read_p8png(raw) if png else read_p8(raw)
+    except (FormatError, refpng.PNGError, UnicodeDecodeError) as e:
+        raise Violation('%s is not readable by the reference %s reader: %s' % (what, '.p8.png' if png else '.p8', e),
+                        case, 'unreadable-output')
